@@ -96,101 +96,130 @@ func TestDrv_C15(t *testing.T) {
 			}
 			for _, callers := range callerss {
 				for _, kind := range []string{"http", "json", "static", "jsonfile", "httpfile"} {
-					var tgr vegeta.Targeter
-					switch kind {
-					case "jsonfile", "httpfile": // the source is a file, as in the command (an io.Closer, unlike a reader in memory)
-						if n > 400 && kind == "httpfile" {
-							continue
+					skip := false
+					var files []*os.File
+					mk := func(twin int) (tgr vegeta.Targeter) {
+						switch kind {
+						case "jsonfile", "httpfile": // the source is a file, as in the command (an io.Closer, unlike a reader in memory)
+							if n > 400 && kind == "httpfile" {
+								skip = true
+								return nil
+							}
+							doc := jsonDoc.Bytes()
+							if kind == "httpfile" {
+								doc = httpDoc.Bytes()
+							}
+							p := filepath.Join(dir, fmt.Sprintf("c15_%d_%d_%d_%d.%s", round, n, callers, twin, kind))
+							must(os.WriteFile(p, doc, 0o644))
+							f, err := os.Open(p)
+							must(err)
+							files = append(files, f)
+							if kind == "jsonfile" {
+								tgr = vegeta.NewJSONTargeter(f, nil, defaults())
+							} else {
+								tgr = vegeta.NewHTTPTargeter(f, nil, defaults())
+							}
+						case "http":
+							if n > 400 {
+								skip = true // body files only exist for the first 400 targets
+								return nil
+							}
+							tgr = vegeta.NewHTTPTargeter(bytes.NewReader(httpDoc.Bytes()), nil, defaults())
+						case "json":
+							tgr = vegeta.NewJSONTargeter(bytes.NewReader(jsonDoc.Bytes()), nil, defaults())
+						case "static":
+							tgr = vegeta.NewStaticTargeter(tgts...)
 						}
-						doc := jsonDoc.Bytes()
-						if kind == "httpfile" {
-							doc = httpDoc.Bytes()
-						}
-						p := filepath.Join(dir, fmt.Sprintf("c15_%d_%d_%d.%s", round, n, callers, kind))
-						must(os.WriteFile(p, doc, 0o644))
-						f, err := os.Open(p)
-						must(err)
-						defer f.Close()
-						if kind == "jsonfile" {
-							tgr = vegeta.NewJSONTargeter(f, nil, defaults())
-						} else {
-							tgr = vegeta.NewHTTPTargeter(f, nil, defaults())
-						}
-					case "http":
-						if n > 400 {
-							continue // body files only exist for the first 400 targets
-						}
-						tgr = vegeta.NewHTTPTargeter(bytes.NewReader(httpDoc.Bytes()), nil, defaults())
-					case "json":
-						tgr = vegeta.NewJSONTargeter(bytes.NewReader(jsonDoc.Bytes()), nil, defaults())
-					case "static":
-						tgr = vegeta.NewStaticTargeter(tgts...)
+						return tgr
 					}
-					perCaller := make([][]int, callers)
+					// in the odd rounds two stream targeters over the same input live side by side (each read by its own callers):
+					// neither is "mixed with another"
+					twins := 1
+					if round%2 == 1 && kind != "static" && callers >= 2 {
+						twins = 2
+					}
+					tgrs := make([]vegeta.Targeter, twins)
+					for i := range tgrs {
+						tgrs[i] = mk(i)
+					}
+					if skip {
+						continue
+					}
+					perCallers := make([][][]int, twins)
 					var wg sync.WaitGroup
 					start := make(chan struct{})
-					for g := 0; g < callers; g++ {
-						wg.Add(1)
-						go func(g int) {
-							defer wg.Done()
-							<-start
-							eofs := 0
-							var slot vegeta.Target
-							var kept []keptTarget
-							for k := 0; ; k++ {
-								var fresh vegeta.Target
-								tg := &fresh
-								if g%2 == 1 && kind != "json" && kind != "jsonfile" {
-									// every other caller keeps one variable for all its draws, the ordinary
-									// `var t Target; for tr(&t) == nil` loop (the JSON format documents merging into it)
-									tg = &slot
-								}
-								err := tgr(tg)
-								switch {
-								case err == vegeta.ErrNoTargets:
-									perCaller[g] = append(perCaller[g], 0)
-									eofs++
-								case err != nil:
-									perCaller[g] = append(perCaller[g], -2)
-								default:
-									id := idOf(tg)
-									// the targets this caller drew before (those it did not hand back) are still what they were:
-									// nothing a later draw - its own or another caller's - writes may reach into them
-									for _, h := range kept {
-										if idOf(h.t) != h.id {
-											id = -3
-										}
+					for tw := 0; tw < twins; tw++ {
+						perCaller := make([][]int, callers)
+						perCallers[tw] = perCaller
+						tgr := tgrs[tw]
+						for g := 0; g < callers; g++ {
+							wg.Add(1)
+							go func(g int) {
+								defer wg.Done()
+								<-start
+								eofs := 0
+								var slot vegeta.Target
+								var kept []keptTarget
+								for k := 0; ; k++ {
+									var fresh vegeta.Target
+									tg := &fresh
+									if g%2 == 1 && kind != "json" && kind != "jsonfile" {
+										// every other caller keeps one variable for all its draws, the ordinary
+										// `var t Target; for tr(&t) == nil` loop (the JSON format documents merging into it)
+										tg = &slot
 									}
-									if tg == &fresh {
-										if len(kept) == 3 {
-											kept = kept[1:]
+									err := tgr(tg)
+									switch {
+									case err == vegeta.ErrNoTargets:
+										perCaller[g] = append(perCaller[g], 0)
+										eofs++
+									case err != nil:
+										perCaller[g] = append(perCaller[g], -2)
+									default:
+										id := idOf(tg)
+										// the targets this caller drew before (those it did not hand back) are still what they were:
+										// nothing a later draw - its own or another caller's - writes may reach into them
+										for _, h := range kept {
+											if idOf(h.t) != h.id {
+												id = -3
+											}
 										}
-										kept = append(kept, keptTarget{tg, id})
+										if tg == &fresh {
+											if len(kept) == 3 {
+												kept = kept[1:]
+											}
+											kept = append(kept, keptTarget{tg, id})
+										}
+										perCaller[g] = append(perCaller[g], id)
 									}
-									perCaller[g] = append(perCaller[g], id)
+									if kind == "static" && k+1 >= (3*n)/callers+g%3+1 {
+										return
+									}
+									if eofs >= 2 || len(perCaller[g]) > 3*n+10 {
+										return
+									}
 								}
-								if kind == "static" && k+1 >= (3*n)/callers+g%3+1 {
-									return
-								}
-								if eofs >= 2 || len(perCaller[g]) > 3*n+10 {
-									return
-								}
-							}
-						}(g)
+							}(g)
+						}
 					}
 					close(start)
 					wg.Wait()
-					runs++
-					tr.Emit("Reset", KV{"kind": kind, "n": n, "callers": callers})
-					for g, ds := range perCaller {
-						for _, res := range ds {
-							tr.Emit("Draw", KV{"g": g + 1, "res": res})
-							drawsTotal++
-						}
+					for _, f := range files {
+						f.Close()
 					}
-					tr.Emit("End", nil)
-					if len(samples) < 2 && n == 7 && callers == 2 {
-						samples = append(samples, KV{"kind": kind, "draws_per_caller": perCaller})
+					for _, perCaller := range perCallers {
+						runs++
+						tr.Emit("Reset", KV{"kind": kind, "n": n, "callers": callers, "side_by_side": twins})
+						for g, ds := range perCaller {
+							for _, res := range ds {
+								tr.Emit("Draw", KV{"g": g + 1, "res": res})
+								drawsTotal++
+							}
+						}
+						tr.Emit("End", nil)
+						if len(samples) < 2 && n == 7 && callers == 2 {
+							samples = append(samples, KV{"kind": kind, "draws_per_caller": perCaller})
+						}
 					}
 				}
 			}
